@@ -11,7 +11,8 @@ constructors, user validator functions, adapt, the object's class): every
 theorem holds for every `Env`.
 -/
 import TraitsVerif.Lemmas.ValOrder
-import TraitsVerif.Lemmas.ValCSrc6
+import TraitsVerif.Lemmas.ValCSrc7
+import TraitsVerif.Lemmas.ValPySrc2
 import TraitsVerif.Generated.ValidateTables
 namespace TraitsVerif.Props.C03
 open TraitsVerif TraitsVerif.Py.Value TraitsVerif.Model.Val
@@ -286,5 +287,62 @@ example : TraitsVerif.Model.CSrc.descOk E0 (fastAlone E0) Val.none 8
   intro d hd
   simp at hd
   rcases hd with rfl | rfl | rfl | rfl | rfl <;> simp [TraitsVerif.Model.CSrc.entryOk]
+
+
+/-! ## Round 2: the tuple check, and the Python half -/
+
+open TraitsVerif.Model.CSrc in
+/-- `validate_trait_tuple_check` (both of its loops, the in-place construction of the result
+tuple included), interpreted on its translated source text, is `tupleCheck`: the hypothesis
+`TupleCheckSpec` of the theorems above holds whenever the inner CTraits validate with
+`fastAlone` and never report a TraitError as a foreign exception. -/
+theorem C03_tuple_check_is_source (E : Env) (inner : Desc → Val → Res) (cdflt : Val) (fuel : Nat)
+    (items : List (Option Desc))
+    (hin : ∀ d, some d ∈ items → ∀ x, inner d x = fastAlone E d x)
+    (hte : ∀ d, some d ∈ items → ∀ x, fastAlone E d x ≠ .raised .traitError)
+    (hf : items.length < fuel) :
+    TupleCheckSpec E inner cdflt fuel items :=
+  tupleCheckSpec_holds E inner cdflt fuel items hin hte hf
+
+open TraitsVerif.Model.CSrc in
+/-- C03_fast_is_source for Tuple descriptors without any unproved hypothesis: the inner
+traits validate with the model, which by C03_fast_is_source is their interpreted source. -/
+theorem C03_fast_is_source_tuple (E : Env) (hA : AdaptSome E) (cdflt : Val) (fuel : Nat)
+    (items : List (Option Desc)) (v : Val)
+    (hte : ∀ d, some d ∈ items → ∀ x, fastAlone E d x ≠ .raised .traitError)
+    (hf : items.length < fuel) :
+    srcAlone E (fastAlone E) cdflt fuel (.tuple items) v = some (norm (fastAlone E (.tuple items) v)) :=
+  C03_fast_is_source E hA (fastAlone E) cdflt fuel (.tuple items) v
+    (tupleCheckSpec_holds E (fastAlone E) cdflt fuel items (fun _ _ _ => rfl) hte hf)
+
+open TraitsVerif.Model.PyVSrc in
+/-- `pyValidate` is the interpretation of the source text of the Python `validate` methods:
+for every covered trait type (`pyCovered2`: Int, Float, Complex, Str, Bytes, Bool, CInt …
+CBool, float Range with every bound / exclusivity combination (NaN included), Enum, Map,
+Instance in every adapt mode, Type, This, the None member of Union, and their Base* classes)
+and every value,
+running the translated method of trait_types.py the handler's class defines, with the
+attributes its constructor stored, gives exactly `pyValidate E t v`. -/
+theorem C03_py_is_source (E : Env) (hE : CastIdem E) (hA : TraitsVerif.Model.CSrc.AdaptSome E)
+    (t : TraitType) (v : Val) (h : pyCovered2 t = true) :
+    srcPy E t v = some (pyValidate E t v) :=
+  srcPy_eq2 E hE hA t v h
+
+open TraitsVerif.Model.CSrc TraitsVerif.Model.PyVSrc in
+/-- The property statement literally about the two SOURCES: under the conditions of
+C03_agree_compound_partial, the C function `validate_handlers[kind]` interpreted on its
+translated text and the Python `validate` method interpreted on its translated text return
+the same result (modulo `norm`), for every covered trait type and every value. -/
+theorem C03_sources_agree_partial (E : Env) (hE : CastIdem E) (hA : AdaptSome E)
+    (inner : Desc → Val → Res) (cdflt : Val) (fuel : Nat) (t : TraitType) (d : Desc) (v : Val)
+    (hd : descOf E t = some d) (hc : t.clean = true) (hv : v.notTupleSub = true)
+    (hr : ∀ e, pyValidate E t v ≠ .raised e) (hok : descOk E inner cdflt fuel d)
+    (hp : pyCovered2 t = true) :
+    srcAlone E inner cdflt fuel d v = (srcPy E t v).map norm := by
+  rw [C03_source_agrees_python_partial E hE hA inner cdflt fuel t d v hd hc hv hr hok,
+    C03_py_is_source E hE hA t v hp]
+  rfl
+
+example : TraitsVerif.Model.PyVSrc.pyCovered2 (.noFast (.rangeF (some (.fin 0)) none true false)) = true := rfl
 
 end TraitsVerif.Props.C03
